@@ -35,6 +35,7 @@ type Env struct {
 	lemmas    []*Lemma
 	smtPre    []string
 	modCache  map[*ssa.Function]*modSet
+	guarded   map[string]string // struct type (pkg.T) -> name of the mutex field that protects its shared fields
 	inlCache  map[*ssa.Function]bool
 	allNamed  []types.Type
 	trusted   map[string]bool
@@ -92,7 +93,7 @@ func loadEnv(repo string) (*Env, error) {
 	prog.Build()
 	e := &Env{repo: repo, fset: prog.Fset, pkgs: pkgs, prog: prog, funcs: map[string]*ssa.Function{},
 		exprAt: map[kindPos]ast.Node{}, srcCache: map[string][]byte{}, typeIDs: map[string]int{},
-		contracts: map[string]*Contract{}, specFuncs: map[string]*SpecFunc{}, modCache: map[*ssa.Function]*modSet{},
+		contracts: map[string]*Contract{}, specFuncs: map[string]*SpecFunc{}, modCache: map[*ssa.Function]*modSet{}, guarded: map[string]string{},
 		inlCache: map[*ssa.Function]bool{}, trusted: map[string]bool{}}
 	if len(pkgs) > 0 && pkgs[0].Module != nil {
 		e.modPath = pkgs[0].Module.Path
